@@ -420,11 +420,11 @@ def random_value(rng, macros):
             parts.append(['T', random_text(rng)])
     return parts
 
-RULE = ('exhaustive-small: abstract databases with <= 2 entries x <= 2 fields over a pool of 8 value shapes (plain, number, nested braces, irregular whitespace, month macro, @string macro + concatenation, empty, quotes inside braces), crossed with layouts {brace, paren, alternating} x {braced, quoted, bare number, concatenation split at a brace-balanced point} x {as written, lower, upper, mixed case} x {no, single-space, LF, CRLF whitespace} x trailing comma (a seeded sample of the 384 layouts per database: 6 quick, 64 thorough); '
+RULE = ('exhaustive-small: abstract databases with <= 2 entries x <= 2 fields over a pool of 8 value shapes (plain, number, nested braces, irregular whitespace, month macro, @string macro + concatenation, empty, quotes inside braces), crossed with layouts {brace, paren, alternating} x {braced, quoted, bare number, concatenation split at a brace-balanced point} x {as written, lower, upper, mixed case} x {no, single-space, LF, CRLF whitespace} x trailing comma (a seeded sample of the 384 layouts per database: 6 quick, 18 thorough); '
         'random: databases of <= 12 items (entries with <= 5 fields incl. author/editor person lists of structured persons, @string chains, @preamble, @comment, junk text, repeated keys, duplicate fields differing in case) under random layouts incl. arbitrary Unicode whitespace between tokens; '
         'normalize_whitespace on all strings of length <= 6 over {a, space, LF, NBSP}. distinct = distinct (function, argument); non-trivial = at least one entry read.')
 EXHAUSTIVE = {'quick': 'all 4234 abstract databases of the small scope, each under 6 of the 384 layouts (seeded sample); normalize_whitespace: all strings of length <= 6 over a 4-symbol alphabet',
-              'thorough': 'all 4234 abstract databases of the small scope, each under 64 of the 384 layouts (seeded sample)'}
+              'thorough': 'all 4234 abstract databases of the small scope, each under 18 of the 384 layouts (seeded sample)'}
 TRUSTED_BASE = ['modelled (not verified) code: as for C10 (LowLevelParser, Parser, Scanner, normalize_whitespace, add_entry, split_name_list, Person)',
                 'the renderer and denote_py of harness/props/c01.py (the generator grammar and its denotation)']
 ASSUMPTIONS = ['Python str.isspace / regex \\s = the 29 code points of Base/PyChar.is_space', 'identifiers and keys are ASCII (plus caseless symbols): str.lower() = ASCII lower there']
@@ -437,11 +437,11 @@ def gen(tier, rng):
     lays = list(all_layouts(1))
     for i, items in enumerate(dbs):
         w = encode_items(items)
-        chosen = rng.sample(lays, 64 if tier == 'thorough' else 6)
+        chosen = rng.sample(lays, 18 if tier == 'thorough' else 6)
         for lay in chosen:
             yield ('exhaustive_small', 10, [w, lay])
         yield ('lowlevel', 11, [w, rng.choice(lays)])
-    nrand = 2500 if tier == 'quick' else 40000
+    nrand = 2500 if tier == 'quick' else 12000
     for i in range(nrand):
         items = random_db(rng)
         w = encode_items(items)
